@@ -68,6 +68,15 @@ def registry():
          regions={'em': 'u8[len_em_output]', 'sentinel': 'u8[len_sentinel]', 'output': 'u8[len_em_output]'},
          modifies=['output'], allocates=True,
          requires={'int_range': 'len_em_output <= 2147483647'},
+         lemmas={'position': 'not alloc_failed ==> 10 <= pos and pos <= len_em_output and first_zero(em, len_em_output, pos)',
+                 'selector': 'not alloc_failed ==> ((selector == 0) <==> ok(em, len_em_output, pos, expected_pt_len))',
+                 'accept_at_pos': 'not alloc_failed and selector == 0 ==> '
+                                  '(result == pos + 1 and all(output[k] == em[k] for k in range(len_em_output)))',
+                 'reject_at_pos': 'not alloc_failed and selector != 0 ==> '
+                                  '(result == len_em_output - len_sentinel '
+                                  'and all(output[k] == 0 for k in range(len_em_output - len_sentinel)) '
+                                  'and all(output[len_em_output - len_sentinel + k] == sentinel[k] for k in range(len_sentinel)))',
+                 'unique': 'not alloc_failed ==> all(first_zero(em, len_em_output, j) ==> j == pos for j in range(10, len_em_output + 1))'},
          ensures={
              'bad_args': 'bad_args(len_em_output, len_sentinel, expected_pt_len) ==> result == -1',
              'error_only_if': 'result == -1 ==> (bad_args(len_em_output, len_sentinel, expected_pt_len) or alloc_failed)',
@@ -94,7 +103,13 @@ def registry():
              'bad_args': 'oaep_bad_args(em_len, hLen, db_len) ==> result == -1',
              'accept': 'not oaep_bad_args(em_len, hLen, db_len) and not alloc_failed ==> '
                        'all(oaep_ok(em, lHash, hLen, db, i) ==> result == hLen + 1 + i for i in range(db_len - hLen))',
-             'reject': 'result != -1 ==> (not oaep_bad_args(em_len, hLen, db_len) and result >= hLen + 1 and '
-                       'result - hLen - 1 < db_len - hLen and oaep_ok(em, lHash, hLen, db, result - hLen - 1))'},
-         loops={3: dict(invariants={})})
+             'only_if': 'result != -1 ==> (not oaep_bad_args(em_len, hLen, db_len) and '
+                        'any(result == hLen + 1 + i and oaep_ok(em, lHash, hLen, db, i) for i in range(db_len - hLen)))'},
+         lemmas={'witness': 'result != -1 ==> (result == hLen + 1 + one_pos and one_pos < db_len - hLen and '
+                            'oaep_ok(em, lHash, hLen, db, one_pos))'},
+         loops={0: dict(invariants={
+             'bounds': 'i <= search_len',
+             'hash_part': 'all(eq_mask[k] == 255 for k in range(hLen))',
+             'ps_part': 'all(eq_mask[hLen + t] == (255 if t < one_pos else 0) for t in range(i))'},
+             decreases='search_len - i')})
     return R
